@@ -383,3 +383,61 @@ package core
 //@   loop 1 invariant allKillReport.Count == sumPtr(arr(killReports), off(killReports), old(fieldarr(core.VDRKillReport.Count)), iter)
 //@   loop 1 invariant forall r *core.VDRKillReport :: old(alloc(r)) ==> r.Size == old(r.Size) && r.Count == old(r.Count)
 //@   loop 1 invariant arr(killReports) == old(arr(killReports))
+
+// ---------------------------------------------------------------- C11 fork identities and routing of journal updates
+
+//@ iface syntax.CallGraphNode.GetFqid property C11
+//@   pure
+//@   opt deterministic on
+
+//@ func core.makeKeySafe property C11
+//@   pure
+//@   ensures result == fn("net/url.PathEscape", k)
+
+//@ func core.mapKeyFork.forkString property C11
+//@   pure
+//@   ensures result == "fork_" + fn("net/url.PathEscape", k)
+
+//@ func core.Fork.getChunk property C11
+//@   nopanic
+//@   pure
+//@   requires self != nil && index >= 0
+//@   ensures index < len(self.chunks) ==> result == self.chunks[index]
+//@   ensures index >= len(self.chunks) ==> result == nil
+
+// Ghost events: cachecount[m] counts cache() calls on metadata m, lastcached[m] is the last name.
+// A notification of another attempt (different uniquifier) is ignored.
+//@ func core.Metadata.cache property C11 C05
+//@   modifies mapof(self.contents), mapof(self.readCache), held(self.mutex)
+//@   effect cachecount self
+//@   effect lastcached self := name
+//@   ensures @own self.uniquifier == uniquifier ==> forall k string :: has(self.contents, k) == (old(has(self.contents, k)) || k == name)
+//@   ensures @stale self.uniquifier != uniquifier ==> forall k string :: has(self.contents, k) == old(has(self.contents, k))
+
+// split_/join_ prefixed notifications go to exactly that job's metadata with the prefix stripped, everything else to the fork's own.
+//@ func core.Fork.updateState property C11
+//@   ensures @split hasprefix(state, "split_") ==> ghost(cachecount)[old(self.split_metadata)] > old(ghost(cachecount)[self.split_metadata]) && ghost(lastcached)[old(self.split_metadata)] == state[6:]
+//@   ensures @join !hasprefix(state, "split_") && hasprefix(state, "join_") ==> ghost(cachecount)[old(self.join_metadata)] > old(ghost(cachecount)[self.join_metadata]) && ghost(lastcached)[old(self.join_metadata)] == state[5:]
+//@   ensures @fork !hasprefix(state, "split_") && !hasprefix(state, "join_") ==> ghost(cachecount)[old(self.metadata)] > old(ghost(cachecount)[self.metadata]) && ghost(lastcached)[old(self.metadata)] == state
+//@   ensures @only forall m *core.Metadata :: ghost(cachecount)[m] != old(ghost(cachecount)[m]) ==> m == (hasprefix(state, "split_") ? old(self.split_metadata) : (hasprefix(state, "join_") ? old(self.join_metadata) : old(self.metadata)))
+
+// getFork returns one of the node's forks: by position when the index is a number in range, else the fork whose journal name ends in exactly that index.
+//@ func core.Node.getFork property C11
+//@   pure
+//@   let l = len(fn(syntax.CallGraphNode.GetFqid, self.call)) + 5
+//@   let byindex = isnil(fn(strconv.Atoi, index).1) && fn(strconv.Atoi, index).0 >= 0 && fn(strconv.Atoi, index).0 < len(self.forks)
+//@   ensures @member result != nil ==> exists j :: 0 <= j && j < len(self.forks) && result == self.forks[j]
+//@   ensures @byindex byindex ==> result == self.forks[fn(strconv.Atoi, index).0]
+//@   ensures @byname result != nil && !byindex ==> len(result.fqname) > l && result.fqname[l:] == index
+//@   loop 1 invariant 0 <= iter && iter <= len(self.forks)
+
+//@ func core.Chunk.updateState property C11
+//@   ensures @routed ghost(cachecount)[old(self.metadata)] > old(ghost(cachecount)[self.metadata]) && ghost(lastcached)[old(self.metadata)] == state
+//@   ensures @only forall m *core.Metadata :: ghost(cachecount)[m] != old(ghost(cachecount)[m]) ==> m == old(self.metadata)
+
+// find: a node answers to its fully qualified id, with or without the top-level prefix.
+//@ func core.Node.find property C11
+//@   pure
+//@   let sn = fn(syntax.CallGraphNode.GetFqid, self.call)
+//@   ensures @self (sn == self.top.fqname + "." + fqname || sn == fqname) ==> result == self
+//@   ensures @named result != nil ==> (fn(syntax.CallGraphNode.GetFqid, result.call) == result.top.fqname + "." + fqname || fn(syntax.CallGraphNode.GetFqid, result.call) == fqname)
